@@ -16,10 +16,18 @@
 //   {"o":"advt","ms":X,"skew":ms}         ... until the wall clock shows target+X ms (target read through remainSeconds())
 //   {"o":"adj","ds":seconds}              the wall clock is stepped
 //   {"o":"calc","t":[[day,sod],..]}       evaluate the protected calculateNextLocalTimeSec() through the probe subclass
+// Group scripts: several WorkdayAlarm objects sharing ONE WorkdayCalendar
+//   {"kind":"group","n":N,"start":{..},"cal0":{"wmask":[..],"sp":[..]},"ops":[...]}
+//   ops carry the alarm index "a" (init: sod, work; tz, enable, disable, refresh, advt); "cal", "adv", "adj" are shared.
+//   The recording is written as N executions, one per alarm: the alarm's own events plus every shared event (clock
+//   movement, calendar update) with THAT alarm's projected state.  Each projection must be a behaviour of the one-alarm
+//   specification: in particular after a calendar update every subscribed running alarm must be armed for the earliest
+//   instant under the NEW calendar.  The Start line of each projection carries the whole group script (for --replay).
 // Environment restriction of the spec (Alarm.tla, InEarlyWindow): while the wall clock has not reached the instant that
 // already fired, calls into the alarm are skipped (not executed, not logged).
 #include <cstdint>
 #include <cstdio>
+#include <cstring>
 #include <fstream>
 #include <functional>
 #include <map>
@@ -78,17 +86,18 @@ static std::string pair2(uint64_t a, uint64_t b) { return "[" + std::to_string(a
 static std::string inst(uint64_t sec) { return pair2(sec / 86400, sec % 86400); }
 
 // projected state after every step: clocks, isEnabled(), target (current second + remainSeconds(), 32-bit like the API)
-static std::string post(Exec &x) {
+static std::string post_of(alarm::Alarm *al, int64_t &cur_tg) {
     uint64_t sec = g_wall_us / 1000000ull;
-    bool en = x.al->isEnabled();
-    uint32_t tg = (uint32_t)((uint32_t)sec + x.al->remainSeconds());
-    if (en) x.cur_tg = tg;
+    bool en = al->isEnabled();
+    uint32_t tg = (uint32_t)((uint32_t)sec + al->remainSeconds());
+    if (en) cur_tg = tg;
     std::string s = "\"w\":[" + std::to_string(sec / 86400) + "," + std::to_string(sec % 86400) + "," + std::to_string(g_wall_us % 1000000ull) + "]";
     s += ",\"m\":" + pair2(g_mono_ms / 86400000ull, g_mono_ms % 86400000ull);
     s += std::string(",\"en\":") + (en ? "true" : "false");
     s += ",\"tg\":" + (en ? inst(tg) : std::string("[0,0]"));
     return s;
 }
+static std::string post(Exec &x) { return post_of(x.al, x.cur_tg); }
 static const char *tf(bool b) { return b ? "true" : "false"; }
 
 static std::string weekmask_str(const json &m) { std::string s = "0000000"; for (auto &d : m) s[d.get<int>() % 7] = '1'; return s; }
@@ -229,10 +238,147 @@ static void run_script(const json &sc) {
     vh::T().printf("{\"e\":\"Reset\"}");
 }
 
+// ------------------------------------------------------------------ groups: N workday alarms, one calendar ----------
+struct Member {
+    ProbeWorkday *al = nullptr;
+    std::vector<std::string> buf;   // this alarm's projection of the execution
+    bool inited = false;
+    long fires = 0;
+    int64_t cur_tg = -1, last_fired = -1;
+    bool early() const { return last_fired >= 0 && (int64_t)(g_wall_us / 1000000ull) < last_fired; }
+};
+struct Group {
+    event::Loop *loop = nullptr;
+    alarm::WorkdayCalendar *cal = nullptr;
+    std::vector<Member> m;
+    json ops, cur_wmask = json::array(), cur_sp = json::array();
+    size_t pc = 0;
+};
+static Group *g_group = nullptr;
+// the projections are written one after the other (also from the fault paths, best effort)
+static void flush_group() {
+    Group *g = g_group;
+    if (!g) return;
+    g_group = nullptr;
+    for (auto &mb : g->m) {
+        for (auto &l : mb.buf) vh::T().line(l);
+        vh::T().line("{\"e\":\"Reset\"}");
+    }
+    vh::T().flush();
+}
+static void shared_event(Group &g, const std::string &head) {      // clock movement / calendar update: seen by every alarm
+    for (auto &mb : g.m) mb.buf.push_back(head + post_of(mb.al, mb.cur_tg) + "}");
+}
+static void group_advance(Group &g, int64_t dt_ms, int64_t skew) {
+    if (dt_ms < 0 || dt_ms + skew < 0) return;
+    g_wall_us += (uint64_t)dt_ms * 1000ull;
+    g_mono_ms += (uint64_t)(dt_ms + skew);
+    shared_event(g, "{\"e\":\"Adv\",\"dt\":" + pair2((uint64_t)dt_ms / 86400000ull, (uint64_t)dt_ms % 86400000ull) + ",\"skew\":" + std::to_string(skew) + ",");
+}
+static void group_op(Group &g, const json &op) {
+    const std::string o = op["o"];
+    if (o == "adv") { group_advance(g, op["dt"][0].get<int64_t>() * 86400000ll + op["dt"][1].get<int64_t>(), op["skew"].get<int64_t>()); return; }
+    if (o == "adj") {
+        int64_t ds = op["ds"].get<int64_t>();
+        g_wall_us = (uint64_t)((int64_t)g_wall_us + ds * 1000000ll);
+        for (auto &mb : g.m) if (ds < 0 && mb.early()) mb.last_fired = -1;
+        shared_event(g, "{\"e\":\"Adj\",\"ds\":" + std::to_string(ds) + ",");
+        return;
+    }
+    if (o == "cal") {
+        if (op.contains("wmask") == op.contains("sp")) { fprintf(stderr, "cal: exactly one of wmask/sp\n"); _exit(3); }
+        for (auto &mb : g.m) if (mb.early()) return;            // environment restriction: the update calls refresh() on them
+        if (op.contains("wmask")) { g.cur_wmask = op["wmask"]; g.cal->updateWeekMask(weekmask_byte(op["wmask"])); }
+        else {
+            std::map<int, bool> sp;
+            for (auto &p : op["sp"]) sp[p[0].get<int>()] = p[1].get<int>() != 0;
+            g.cur_sp = op["sp"];
+            g.cal->updateSpecialDays(sp);
+        }
+        std::string head = "{\"e\":\"Cal\",\"wmask\":" + g.cur_wmask.dump() + ",\"sp\":" + g.cur_sp.dump() + ",";
+        for (auto &mb : g.m) if (mb.inited) mb.buf.push_back(head + post_of(mb.al, mb.cur_tg) + "}");   // others read the calendar at initialize()
+        return;
+    }
+    Member &mb = g.m.at(op["a"].get<size_t>());
+    if (o == "advt") {
+        if (!mb.al->isEnabled()) return;
+        uint32_t remain = mb.al->remainSeconds();
+        if (remain > 0x7fffffffu) return;
+        group_advance(g, (int64_t)remain * 1000 - (int64_t)((g_wall_us % 1000000ull) / 1000) + op["ms"].get<int64_t>(), op["skew"].get<int64_t>());
+        return;
+    }
+    if (mb.early()) return;
+    if (o == "init") {
+        Member *pm = &mb;
+        mb.al->setCallback([pm] {
+            pm->last_fired = pm->cur_tg;
+            pm->buf.push_back("{\"e\":\"Fire\"," + post_of(pm->al, pm->cur_tg) + "}");
+            if (++pm->fires > 5000) { vh::fault("runaway", "more than 5000 callbacks in one execution"); }
+        });
+        bool r = mb.al->initialize(op["sod"].get<int>(), g.cal, op["work"].get<bool>());
+        if (r) mb.inited = true;
+        mb.buf.push_back("{\"e\":\"Init\",\"k\":\"workday\",\"sod\":" + op["sod"].dump() + ",\"wmask\":" + g.cur_wmask.dump() + ",\"sp\":" + g.cur_sp.dump() +
+                         ",\"work\":" + op["work"].dump() + ",\"ret\":" + tf(r) + "," + post_of(mb.al, mb.cur_tg) + "}");
+    } else if (o == "tz") {
+        mb.al->setTimezone(op["min"].get<int>());
+        mb.buf.push_back("{\"e\":\"Tz\",\"min\":" + std::to_string(op["min"].get<int>()) + "," + post_of(mb.al, mb.cur_tg) + "}");
+    } else if (o == "enable") {
+        bool r = mb.al->enable();
+        mb.buf.push_back(std::string("{\"e\":\"Enable\",\"ret\":") + tf(r) + "," + post_of(mb.al, mb.cur_tg) + "}");
+    } else if (o == "disable") {
+        bool r = mb.al->disable();
+        mb.buf.push_back(std::string("{\"e\":\"Disable\",\"ret\":") + tf(r) + "," + post_of(mb.al, mb.cur_tg) + "}");
+    } else if (o == "refresh") {
+        mb.al->refresh();
+        mb.buf.push_back("{\"e\":\"Refresh\"," + post_of(mb.al, mb.cur_tg) + "}");
+    } else {
+        fprintf(stderr, "unknown group op %s\n", o.c_str());
+        _exit(3);
+    }
+}
+static void run_group(const json &sc, const std::string &text) {
+    Group g;
+    const json &st = sc["start"];
+    g_wall_us = (st["w"][0].get<uint64_t>() * 86400ull + st["w"][1].get<uint64_t>()) * 1000000ull + st["w"][2].get<uint64_t>();
+    g_mono_ms = st["m"][0].get<uint64_t>() * 86400000ull + st["m"][1].get<uint64_t>();
+    g_sysoff = st["sys"].get<int>();
+    g.ops = sc["ops"];
+    g.loop = event::Loop::New();
+    g.cal = new alarm::WorkdayCalendar;
+    g.cur_wmask = sc["cal0"]["wmask"]; g.cur_sp = sc["cal0"]["sp"];
+    {   // nobody is subscribed yet
+        std::map<int, bool> sp;
+        for (auto &p : g.cur_sp) sp[p[0].get<int>()] = p[1].get<int>() != 0;
+        g.cal->updateWeekMask(weekmask_byte(g.cur_wmask));
+        g.cal->updateSpecialDays(sp);
+    }
+    g.m.resize(sc["n"].get<size_t>());
+    for (size_t i = 0; i < g.m.size(); ++i) {
+        g.m[i].al = new ProbeWorkday(g.loop);
+        g.m[i].buf.push_back("{\"e\":\"Start\",\"kind\":\"workday\",\"sys\":" + std::to_string(g_sysoff) + ",\"a\":" + std::to_string(i) +
+                             ",\"script\":" + vh::jstr(text) + "," + post_of(g.m[i].al, g.m[i].cur_tg) + "}");
+    }
+    g_group = &g;
+    std::function<void()> step = [&] {
+        if (g.pc < g.ops.size()) group_op(g, g.ops[g.pc]);
+        ++g.pc;
+        if (g.pc >= g.ops.size() + 2) { g.loop->exitLoop(); return; }
+        g.loop->runNext(step, "c20 step");
+    };
+    g.loop->runNext(step, "c20 step");
+    g.loop->runLoop(event::Loop::Mode::kForever);
+    for (auto &mb : g.m) { mb.al->setCallback(nullptr); delete mb.al; mb.al = nullptr; }
+    delete g.cal;
+    delete g.loop;
+    flush_group();
+}
+static void group_pre_fault(bool) { flush_group(); }   // faults while a group runs: first write what the alarms have recorded
+
 int main(int argc, char **argv) {
     if (argc < 4 || std::string(argv[1]) != "script") { fprintf(stderr, "usage: driver script <scripts.jsonl> <trace>\n"); return 3; }
     vh::T().open(argv[3]);
     vh::install_faults();
+    vh::pre_fault() = group_pre_fault;
     verif::Hooks().steady_ms = hook_mono;
     verif::Hooks().wall_clock = hook_wall;
     verif::Hooks().tz_offset = hook_tz;
@@ -240,7 +386,9 @@ int main(int argc, char **argv) {
     std::string line;
     while (std::getline(in, line)) {
         if (line.empty()) continue;
-        run_script(json::parse(line));
+        json sc = json::parse(line);
+        if (sc["kind"] == "group") run_group(sc, line);
+        else run_script(sc);
     }
     vh::T().close();
     return 0;
